@@ -180,6 +180,12 @@ def _tn_cases(draw, tier):
                         unclamped="maybe", affine_range="maybe", normalize="maybe"))
     pdim = len(d["degree"])
     prm = draw(st.lists(gen.params(pdim), min_size=1, max_size=4))
+    if pdim == 2 and not d.get("unclamped") and draw(st.integers(0, 5)) == 0:
+        # a pole: the first row of control points (u = domain start) collapsed into one point, so S_v vanishes along that edge
+        nv_ = d["size"][1]
+        d["P"] = [list(d["P"][0]) if i < nv_ else q for i, q in enumerate(d["P"])]
+        d["pole"] = True
+        prm = [[["start"], prm[0][1]]] + prm[:2]
     return {"defn": d, "params": prm, "normalize": draw(st.booleans()), "as_list": draw(st.booleans())}
 
 
@@ -247,7 +253,21 @@ def check_tangent_normal(case, ctx):
             cr = _cross(su, sv)
             return _norm2(su) < F(1, 10 ** 12) or _norm2(sv) < F(1, 10 ** 12) or _norm2(cr) < F(1, 10 ** 12)
         if nrm and any(degenerate(D) for D, _ in exact):
-            # vector_normalize raises on a zero vector: outside the property's domain (no unit vector exists)
+            # no unit tangent / normal exists where a first partial derivative (or their cross product) vanishes, e.g. at a pole:
+            # the library may refuse; if it answers, what it calls normalised vectors are unit vectors
+            ctx.label("degenerate-tangent-or-normal")
+            for us, (D, M) in zip(plist, exact):
+                if not degenerate(D):
+                    continue
+                for fn_, nm_ in ((operations.tangent, "tangent"), (operations.normal, "normal")):
+                    try:
+                        ans = fn_(obj, tuple(us), normalize=True)
+                    except Exception:
+                        continue
+                    for vec_ in ans[1:]:
+                        ln_ = math.sqrt(sum(float(x) ** 2 for x in vec_))
+                        ctx.check(abs(ln_ - 1.0) <= 1e-9, nm_ + "-not-unit",
+                                  "operations.%s(%r, normalize=True) at a point where a partial derivative vanishes returned a vector of length %r: %r" % (nm_, us, ln_, vec_))
             raise Skip("degenerate tangent or normal")
         if case["as_list"]:
             tres = operations.tangent(obj, [tuple(us) for us in plist], normalize=nrm)
